@@ -171,6 +171,7 @@ RECURSIVE EvMapItems(_, _, _, _, _)
 RECURSIVE EvAnd(_, _, _, _)
 RECURSIVE EvOr(_, _, _, _)
 RECURSIVE EvCompr(_, _, _, _, _, _)
+RECURSIVE EvCompr2(_, _, _, _, _, _)
 RECURSIVE Apply(_, _, _, _)          \* FuncLambda.execute after Args.setArgs
 RECURSIVE BindParams(_, _, _, _, _)
 
@@ -398,6 +399,19 @@ EvCompr(node, items, i, le, st, acc) ==
                IF c.o.v.n = 0 THEN acc
                ELSE IF node.s = "map" THEN MapPut(acc, kv.o.v, v.o.v) ELSE Append(acc, v.o.v))
 
+EvCompr2(node, pairs, i, le, st, acc) ==
+  IF i > Len(pairs)
+  THEN R(Val(IF node.a[1] = "set" THEN SetV(SortVals(acc)) ELSE ListV(acc)), st)
+  ELSE IF st.fuel = 0 THEN R(O("fuel", Null), st)
+  ELSE
+  LET s1 == Put(Put([st EXCEPT !.fuel = @ - 1], le, node.a[3], pairs[i][1]), le, node.a[5], pairs[i][2])
+      v  == Ev(node.a[2], le, s1) IN
+  IF ~IsVal(v) THEN v
+  ELSE LET c == IF node.a[7].n = "none" THEN R(Val(Bool(TRUE)), v.st) ELSE Ev(node.a[7], le, v.st) IN
+  IF ~IsVal(c) THEN c
+  ELSE IF c.o.v.k # "bool" THEN R(RErr, c.st)
+  ELSE EvCompr2(node, pairs, i + 1, le, c.st, IF c.o.v.n = 0 THEN acc ELSE Append(acc, v.o.v))
+
 \* object member lookup following _proto_ (NodeDeref / NodeDerefInvoke)
 RECURSIVE FindMember(_, _, _)
 Member(o, code) == LET S == {i \in 1..Len(o.s) : o.s[i][1] = code}
@@ -482,6 +496,38 @@ Ev(node, e, st) ==
          IF ~IsVal(o) THEN o
          ELSE IF o.o.v.k # "obj" THEN R(RErr, o.st)
          ELSE LET m == FindMember(o.o.v, node.v.s, 4) IN R(Val(IF m = Undef THEN Null ELSE m), o.st)
+    [] node.n = "index" ->                                \* x[i]: NodeDeref on lists, strings, maps
+         LET i == Ev(node.a[2], e, st) IN                 \* (the index is evaluated first)
+         IF ~IsVal(i) THEN i
+         ELSE LET c == Ev(node.a[1], e, i.st) IN
+              IF ~IsVal(c) THEN c
+              ELSE IF c.o.v.k = "null" THEN R(Val(Null), c.st)
+              ELSE IF c.o.v.k \in {"list", "str"}
+              THEN (IF i.o.v.k # "int" THEN R(RErr, c.st)
+                    ELSE LET n == Len(c.o.v.s)
+                             j == IF i.o.v.n < 0 THEN i.o.v.n + n ELSE i.o.v.n IN
+                         IF j < 0 \/ j >= n THEN R(RErr, c.st)
+                         ELSE R(Val(IF c.o.v.k = "list" THEN c.o.v.s[j + 1] ELSE StrV(<<c.o.v.s[j + 1]>>)), c.st))
+              ELSE IF c.o.v.k = "map"
+              THEN LET S == {p \in 1..Len(c.o.v.s) : Equal(c.o.v.s[p][1], i.o.v)} IN
+                   IF S = {} THEN R(RErr, c.st) ELSE R(Val(c.o.v.s[CHOOSE p \in S : TRUE][2]), c.st)
+              ELSE R(RErr, c.st)
+    [] node.n = "compr2" ->     \* two-source comprehension: s = "product" | "parallel";
+                                \* a = <<kind, value expr, id1, list1, id2, list2, cond or none>>
+         LET s1 == NewFrame(st, e)
+             le == Len(s1.envs)
+             c1 == Ev(node.a[4], e, s1) IN
+         IF ~IsVal(c1) THEN c1
+         ELSE LET c2 == Ev(node.a[6], e, c1.st) IN
+              IF ~IsVal(c2) THEN c2
+              ELSE IF ~Iterable(c1.o.v) \/ ~Iterable(c2.o.v) THEN R(RErr, c2.st)
+              ELSE LET i1 == Items(c1.o.v, "entries")  i2 == Items(c2.o.v, "entries")
+                       n1 == Len(i1)  n2 == Len(i2)
+                       pairs == IF node.s = "product"
+                                THEN [k \in 1..(n1 * n2) |-> <<i1[((k - 1) \div n2) + 1], i2[((k - 1) % n2) + 1]>>]
+                                ELSE [k \in 1..(IF n1 > n2 THEN n1 ELSE n2) |->
+                                        <<IF k <= n1 THEN i1[k] ELSE Null, IF k <= n2 THEN i2[k] ELSE Null>>]
+                   IN EvCompr2(node, pairs, 1, le, c2.st, << >>)
     [] node.n = "compr" ->                                \* list/set/map comprehension
          LET s1 == NewFrame(st, e)
              le == Len(s1.envs)
